@@ -46,7 +46,7 @@ def plan(tier, seed):
 
 
 def mandatory_bins(tier):
-    return ["edit:" + e for e in EDIT_NAMES] + ["valid_accepted", "encrypted_component", "zero_components", "via_from_binary", "via_read_file", "plain_component_with_other_enc_tag_value"]
+    return ["edit:" + e for e in EDIT_NAMES] + ["valid_accepted", "encrypted_component", "zero_components", "via_from_binary", "via_read_file", "plain_component_with_other_enc_tag_value", "edit:valid_description_of_210_bytes", "edit:valid_many_components", "edit:payload_mac_made_under_a_key_read_earlier"]
 
 
 def finish(agg, tier):
@@ -163,6 +163,29 @@ def run_shard(spec, ctx):
         case = gen_valid(rng)
         key = G.gen_key(rng)
         run_file(ns, ctx, case, key, first=(i == 0))
+        if i % 8 == 3:
+            # well-formed files at the limits of the fields: a description of exactly 210 bytes (entry size byte 255), and
+            # many components
+            big = G.Case([], [MComp([(7, rng.randbytes(208))], b"full entry", None, False), MComp([(1, b"x")], b"next", None, False)])
+            many = G.Case([], [MComp([(2, bytes((j % 256,)))], bytes((1 + j % 250,)) * (1 + j % 4), None, False) for j in range(rng.choice((40, 257, 300)))])
+            for nm, cs in (("valid_description_of_210_bytes", big), ("valid_many_components", many)):
+                binary = E.Spec(cs.comps, key).assemble()
+                for via in ("read_file", "from_binary"):
+                    judge(ns, ctx, nm, None, binary, key, via, {"case": cs.to_json() if len(cs.comps) < 10 else None, "key": key.hex(), "edit": nm, "binary": binary.hex() if len(binary) < 3000 else None, "rkey": key.hex()})
+        if i % 8 == 5 and case.comps:
+            # history: the authentic file is read under its key K1; then a file for K2 arrives whose entry MACs are right
+            # under K2 but whose payload MACs are still the K1 values -> must be rejected (payload_mac)
+            k2 = bytes((b ^ 0x6B) for b in key)
+            b1 = E.Spec(case.comps, key).assemble()
+            judge(ns, ctx, "valid", None, b1, key, "read_file", {"case": case.to_json(), "key": key.hex(), "edit": "valid", "binary": None, "rkey": key.hex()})
+            s2 = E.Spec(case.comps, k2)
+            s1 = E.Spec(case.comps, key)
+            if s2.payloads == s1.payloads and all(len(p_) for p_ in s1.payloads):
+                for e_, p_ in zip(s2.entries, s1.payloads):
+                    e_["pmac"] = L.mac(key, p_)
+                b2 = s2.assemble()
+                for via in ("read_file", "from_binary"):
+                    judge(ns, ctx, "payload_mac_made_under_a_key_read_earlier", "payload_mac", b2, k2, via, {"case": case.to_json(), "key": key.hex(), "edit": "payload_mac_made_under_a_key_read_earlier", "binary": b2.hex() if len(b2) < 3000 else None, "rkey": k2.hex()})
 
 
 def replay(rec, ctx):
@@ -170,6 +193,6 @@ def replay(rec, ctx):
     if rec.get("binary"):
         binary = bytes.fromhex(rec["binary"])
         for via in ("read_file", "from_binary"):
-            judge(ns, ctx, rec["edit"], "*" if rec["edit"] not in ("valid", "declared_equals_stored", "declared_one", "entries_swapped_reindexed") else None, binary, bytes.fromhex(rec["rkey"]), via, rec)
+            judge(ns, ctx, rec["edit"], "*" if rec["edit"] not in ("valid", "declared_equals_stored", "declared_one", "entries_swapped_reindexed", "valid_description_of_210_bytes", "valid_many_components") else None, binary, bytes.fromhex(rec["rkey"]), via, rec)
     else:
         run_file(ns, ctx, G.Case.from_json(rec["case"]), bytes.fromhex(rec["key"]))
